@@ -252,7 +252,19 @@ fn run_flavour(rep: &Reporter, depth: usize, store_opens: bool, seed: Vec<(Strin
         for _ in 0..groups_n {
             sc.spawn(|| {
                 let dir = ScratchDir::new();
-                let procs = (0..nproc).map(|_| Contender::spawn(&dir.path)).collect();
+                // the contenders name the same directory differently (plain, with a
+                // trailing slash, through `/.`, through a symbolic link)
+                let link = format!("{}.link", dir.path);
+                let _ = std::fs::remove_file(&link);
+                let spellings: Vec<String> = vec![
+                    dir.path.clone(),
+                    format!("{}/", dir.path),
+                    match std::os::unix::fs::symlink(&dir.path, &link) {
+                        Ok(()) => link.clone(),
+                        Err(_) => format!("{}/.", dir.path),
+                    },
+                ];
+                let procs = (0..nproc).map(|i| Contender::spawn(&spellings[i % spellings.len()])).collect();
                 let mut g = Group { dir, procs };
                 loop {
                     let i = next.fetch_add(1, Ordering::Relaxed);
@@ -326,6 +338,8 @@ fn run_flavour(rep: &Reporter, depth: usize, store_opens: bool, seed: Vec<(Strin
                     }
                     outcomes.lock().unwrap().insert(trace);
                 }
+                drop(g);
+                let _ = std::fs::remove_file(&link);
             });
         }
     });
